@@ -121,11 +121,11 @@ def check_track(ctx, t, m, hist, w):
 ITEMS = ["rest", "name", "note", "list", "container", "low", "high", "strlist", "notelist", "climb"]
 
 
-def make_item(rng, kind, instrument):
-    """-> (object for the library, pitches or None, in_range)"""
+def make_item(rng, kind, instrument, current_range=None):
+    """-> (object for the library, pitches or None, in_range); current_range: the range given to the instrument since it was made"""
     if kind == "rest":
         return None, None, True
-    lo, hi = RANGES.get(instrument, (0, 200))
+    lo, hi = current_range or RANGES.get(instrument, (0, 200))
     if kind == "name":
         n = rng.choice(["C", "E", "G", "A", "F#", "Bb"])
         return n, [pitch(n, 4)], lo <= pitch(n, 4) <= hi
@@ -136,7 +136,7 @@ def make_item(rng, kind, instrument):
         names = rng.sample(["C", "E", "G", "B"], rng.randint(2, 3))
         nc = NoteContainer(list(names))
         ps = sorted(pitch(x.name, x.octave) for x in nc.notes)
-        return list(names), ps, all(lo <= pitch(x, 4) <= hi for x in names)
+        return list(names), ps, all(lo <= p <= hi for p in ps)       # (where the names end up once they are voiced upward)
     if kind == "climb":
         # bare names that the container voices upward through several octaves (each next name lies below the previous one
         # within the octave): what counts for the range is where the notes end up
@@ -145,7 +145,8 @@ def make_item(rng, kind, instrument):
         names.insert(0, "C")
         nc = NoteContainer(list(names))
         ps = sorted(pitch(x.name, x.octave) for x in nc.notes)
-        return list(names), ps, all(lo <= p <= hi for p in ps)
+        # (a guitar plays six notes at most, whatever its range: more are refused like notes out of range)
+        return list(names), ps, all(lo <= p <= hi for p in ps) and not (instrument == "Guitar" and len(ps) > 6)
     if kind in ("strlist", "notelist"):
         # a plain list of 'Name-octave' strings (or of Notes), three to five of them, with at most one of them far outside
         # every range and sitting at any position of the list
@@ -217,6 +218,7 @@ def run(shard, ctx):
             t = Track(make_instrument(instrument))
             m = TrackModel()
             hist = []
+            cur_range = None
             if rng.random() < 0.8:
                 key, meter = rng.choice(["C", "G", "eb", "F#", "Bb"]), rng.choice([(4, 4), (3, 4), (6, 8), (5, 8), (2, 2), (12, 8), (0, 0)])
                 t.add_bar(Bar(key, meter))
@@ -231,7 +233,21 @@ def run(shard, ctx):
                     ik = rng.choice(ITEMS[1:5])
                 else:
                     ik = rng.choice(ITEMS[5:])
-                obj, pitches, inrange = make_item(rng, ik, instrument)
+                if instrument != "none" and rng.random() < 0.08:
+                    # the instrument gets another range after it has been in use (set_range with notes or with names, or
+                    # the public attribute subclasses define their range with): from here on that range decides
+                    (ln_, lo_), (hn_, ho_) = rng.choice([(("C", 4), ("C", 6)), (("A", 3), ("E", 5)), (("C", 0), ("B", 9)), (("E", 4), ("G", 4)),
+                                                         (("F", 4), ("A", 5))])
+                    via_r = rng.choice(["set_range(notes)", "set_range(names)", "range attribute"])
+                    if via_r == "set_range(notes)":
+                        t.instrument.set_range((Note(ln_, lo_), Note(hn_, ho_)))
+                    elif via_r == "set_range(names)":
+                        t.instrument.set_range(("%s-%d" % (ln_, lo_), "%s-%d" % (hn_, ho_)))
+                    else:
+                        t.instrument.range = (Note(ln_, lo_), Note(hn_, ho_))
+                    cur_range = (pitch(ln_, lo_), pitch(hn_, ho_))
+                    hist.append((via_r, "%s-%d" % (ln_, lo_), "%s-%d" % (hn_, ho_)))
+                obj, pitches, inrange = make_item(rng, ik, instrument, cur_range)
                 if rng.random() < 0.1 and obj is not None and not isinstance(obj, list):
                     v = MU.Val(4)
                     hist.append(("+", ik, repr(obj)))
